@@ -310,6 +310,10 @@ class GeoBoxBase:
             roi = roi.polygon
         if isinstance(roi, GeoBoxBase):
             roi = roi.extent
+            if roi.crs is None and self._crs is None:
+                # a footprint is in world coordinates, but a Geometry without CRS is read as
+                # pixel coordinates below: two unreferenced grids share one world plane
+                roi = roi.transform(self.wld2pix)
 
         if isinstance(roi, Geometry):
             if roi.crs is not None:
